@@ -3,6 +3,7 @@ package props
 import (
 	"bytes"
 	"fmt"
+	"io"
 	"sort"
 
 	"verif/core"
@@ -128,7 +129,11 @@ func execC07Write(c *Case, full []byte) (v *Verdict) {
 		return nil
 	}
 	s := &sim.Sink{Plan: *c.Sink}
-	err := c.Rec.Write(s)
+	var dst io.Writer = s
+	if c.Sink.Rich {
+		dst = sim.RichSink{Sink: s}
+	}
+	err := c.Rec.Write(dst)
 	if s.Errors > 0 && !bytes.Equal(s.Accepted, full) && err == nil {
 		return &Verdict{Clause: "C07.write.nil-after-error", Key: "C07.write.nil-after-error/" + key,
 			Detail:   fmt.Sprintf("the sink failed %d time(s) and holds %d of %d bytes, but Write returned nil", s.Errors, len(s.Accepted), len(full)),
@@ -399,9 +404,13 @@ func runC07Write(ctx *core.Ctx, r *core.Rng) {
 	if len(full) > 4096 {
 		ctx.Stats.Inc("probe/write_output_beyond_4KiB/" + format)
 	}
+	rich := r.Chance(0.4)
+	if rich {
+		ctx.Stats.Inc("probe/write_destination_also_ByteWriter_StringWriter")
+	}
 	for _, k := range offs {
 		for b := 0; b < 4; b++ {
-			sp := &sim.SinkPlan{K: k, Sticky: b&1 == 1, Partial: b&2 == 2}
+			sp := &sim.SinkPlan{K: k, Sticky: b&1 == 1, Partial: b&2 == 2, Rich: rich}
 			c := &Case{Clause: "C07.write", Rec: rec, Sink: sp}
 			v := execC07Write(c, full)
 			ctx.Eval()
